@@ -534,8 +534,16 @@ def check_freeze(c, rec):
     for call in c["calls"]:
         try:
             getattr(m, call)()
-        except RuntimeError:
-            pass          # refusing (the flag setter refuses non-floating tensors) is fine
+        except RuntimeError as e:
+            # refusing to UNfreeze is fine (the flag setter refuses non-floating tensors); freezing or zeroing gradients
+            # never asks a non-float tensor to require grad, so there is nothing to refuse
+            if call != "unfreeze":
+                raise Violation("mode_call_raised", f"Module.{call}() raised {type(e).__name__}: {e} on a tree holding parameters of "
+                                                    f"dtypes {c['dtypes']}; calls={c['calls']}")
+        if call == "freeze":
+            for p, d in zip(ps, c["dtypes"]):
+                if p.requires_grad:
+                    raise Violation("freeze_incomplete", f"after Module.freeze() a {d} parameter still requires grad; dtypes={c['dtypes']}")
         for p, d in zip(ps, c["dtypes"]):
             if p.requires_grad and np.dtype(d).kind != "f":
                 raise Violation("nonfloat_requires_grad", f"after Module.{call}() a {d} parameter requires grad; dtypes={c['dtypes']} calls={c['calls']}")
@@ -587,6 +595,48 @@ def flag_case(draw, op):
     c["rg"] = draw(st.sampled_from([[True] * n, [False] * n, [True] + [False] * (n - 1), [False] * (n - 1) + [True]]))
     c["no_grad"] = draw(st.sampled_from([True, False]))
     return c
+
+
+# ---- iteration / unpacking of a tensor is indexing: the rows carry the flags of x[i] ------------------------------
+@st.composite
+def iter_flag_cases(draw):
+    return {"shape": draw(st.sampled_from([[2], [3, 2], [2, 1, 3], [1, 4]])), "rg": draw(st.booleans()), "no_grad": draw(st.booleans()),
+            "how": draw(st.sampled_from(["for", "unpack", "list", "zip", "builtin_sum"])), "dtype": draw(st.sampled_from(["float32", "float64"]))}
+
+
+def check_iter_flags(c, rec):
+    dt = np.dtype(c["dtype"])
+    x = Tensor(np.arange(int(np.prod(c["shape"])), dtype=dt).reshape(c["shape"]) / 4.0, requires_grad=c["rg"])
+    rec.tag(c["how"])
+    rec.nontrivial(c["rg"])
+    ctxm = sg.no_grad() if c["no_grad"] else contextlib.nullcontext()
+    with ctxm:
+        if c["how"] == "for":
+            rows = [r for r in x]
+        elif c["how"] == "unpack":
+            rows = [*x]
+        elif c["how"] == "list":
+            rows = list(x)
+        elif c["how"] == "zip":
+            rows = [a for a, _ in zip(x, range(len(x.data)))]
+        else:
+            rows = [sum(x)] if x.shape[0] else []
+    want = c["rg"] and not c["no_grad"]
+    for i, r in enumerate(rows):
+        if not isinstance(r, Tensor):
+            raise Violation("result_flag", f"iterating a Tensor ({c['how']}) yielded {type(r).__name__}; {c}")
+        if r.requires_grad != want or (r.grad_fn is not None) != want:
+            raise Violation("result_flag", f"row {i} of `{c['how']}` over a tensor with requires_grad={c['rg']} (grad mode "
+                                           f"{'off' if c['no_grad'] else 'on'}): requires_grad={r.requires_grad}, grad_fn "
+                                           f"{'set' if r.grad_fn is not None else 'None'}; expected {want}; {c}", region="iteration")
+    if want and rows:
+        total = rows[0].sum()
+        for r in rows[1:]:
+            total = total + r.sum()
+        total.backward()
+        g = x.grad
+        if g is None or not np.all(np.asarray(g.data) == 1.0):
+            raise Violation("grad_missing", f"backward through the rows of `{c['how']}` did not reach the iterated tensor; {c}", region="iteration")
 
 
 # ---- constructors with a dtype= that changes the kind of the data, and requires_grad=True -----------------------
@@ -774,6 +824,7 @@ def subchecks():
         subs.append(SubCheck("flag_nn_" + op.name, make_flag_check(op), (lambda op=op: flag_case(op)), quick=100, thorough=1000))
     subs.append(SubCheck("module_freeze_unfreeze", check_freeze, freeze_cases, quick=200, thorough=2000))
     subs.append(SubCheck("flag_two_tensor_losses", check_loss_flags, loss_flag_cases, quick=200, thorough=2000))
+    subs.append(SubCheck("iteration_flags", check_iter_flags, iter_flag_cases, quick=300, thorough=3000))
     subs.append(SubCheck("constructor_cast_flag", check_ctor_flag, ctor_flag_cases, quick=400, thorough=4000))
     subs.append(SubCheck("overlapping_contexts", check_overlap, overlap_cases, quick=500, thorough=6000, shards_thorough=2))
     for op in _ops.OPS:
